@@ -132,9 +132,11 @@ def stage_item(item):
     return out
 
 
-def run_tv(pid, items, rule, key_fn=None):
+def run_tv(pid, items, rule, key_fn=None, pre=None):
     chk = fw.Check(pid, 'translation_validation')
     e0mod.build()
+    if pre is not None:
+        pre(chk)
     results = fw.pmap(stage_item, items, order_seed=fw.seed())
     progs = pairs = cut = undefined = queries = 0
     solver_s = 0.0
@@ -232,9 +234,76 @@ def c05():
                   "machine enforces the exact-environment discipline of every statement (kind, type, position) on every explored path")
 
 
+def expected_of(path):
+    a = path[:-3] + '.args'
+    if not os.path.exists(a):
+        return None
+    t = open(a).read()
+    m = re.search(r'test_args\s*=\s*\[(.*?)\]', t, re.S)
+    args = [int(x.strip().strip('"')) for x in m.group(1).split(',') if x.strip()]
+    exp = re.search(r'expected\s*=\s*"(.*)"', t, re.S).group(1).encode().decode('unicode_escape') + '\n'
+    return args, exp
+
+
+def render(events):
+    return ''.join(str(to_s(e[2])) + ('\n' if e[1] else '') for e in events)
+
+
+def native_item(item):
+    """model validation (Serval style): the corpus programs with recorded expectations are run natively, on FunM and
+    on the symbolic x86-64 executor with concrete arguments; all three must agree with the expectation"""
+    import native, tempfile, shutil
+    out = {'name': item['name'], 'status': 'ok'}
+    exp = expected_of(item['path'])
+    if exp is None:
+        out['status'] = 'skip'
+        return out
+    args, want = exp
+    st = load(item, want_asm=True)
+    R = runners(st)
+    E = e0mod.shared()
+    work = tempfile.mkdtemp(prefix='c01n_')
+    try:
+        a = st['raw']['asm']['x86_64']
+        cd = E.req({'cmd': 'cdriver', 'nargs': a['nargs'], 'dir': work})
+        exe, err = native.build(a['text'], cd['driver'], cd['io'], work)
+        if exe is None:
+            out.update(status='error', what=err)
+            return out
+        so, rc = native.run(exe, args)
+        pf = product.concrete_run(R['fun'], [x & M64 for x in args], 5000000)
+        px = product.concrete_run(R['x86'], [x & M64 for x in args], 50000000)
+        out['native'] = (so.decode('latin1') if so is not None else None, rc)
+        out['fun'] = (render(pf.events), to_s(pf.value) if pf.value is not None and is_c(pf.value) else None, pf.status)
+        out['x86model'] = (render(px.events), to_s(px.value) if px.value is not None and is_c(px.value) else None, px.status, px.note)
+        ok = so is not None and so.decode('latin1') == want and out['fun'][0] == want and out['x86model'][0] == want
+        ok = ok and pf.status == 'done' and px.status == 'done' and (pf.value & 255) == (rc & 255) == (px.value & 255)
+        if not ok:
+            out['status'] = 'mismatch'
+            out['want'] = want
+    finally:
+        shutil.rmtree(work, ignore_errors=True)
+    return out
+
+
 def c01():
     tier = fw.tier()
     items = [dict(it, pairs=[('fun', 'x86')]) for it in corpus() + gen_items(tier, 'sequenced')]
     return run_tv('C01', items, "repository corpus + the effect-sequenced families; FunM x symbolic execution of the printed x86-64 routine "
                   "(prologue, body, epilogue; concrete-layout mode) with the driver / print contracts of C20; exit status compared modulo 256",
-                  key_fn=c02_key)
+                  key_fn=c02_key, pre=validate_models)
+
+
+def validate_models(chk):
+    res = fw.pmap(native_item, [it for it in corpus() if os.path.exists(it['path'][:-3] + '.args')])
+    good = 0
+    for r in res:
+        if 'error' in r and 'name' not in r:
+            chk.inconc(f"model validation: {r['error']}")
+        elif r['status'] == 'mismatch':
+            chk.inconc(f"model validation failed on {r['name']}: native={r.get('native')} fun={r.get('fun')} x86model={r.get('x86model')} want={r.get('want')!r}")
+        elif r['status'] == 'error':
+            chk.inconc(f"model validation on {r['name']}: {r.get('what')}")
+        elif r['status'] == 'ok':
+            good += 1
+    chk.coverage['models_validated_against_native_runs'] = good
